@@ -50,7 +50,7 @@ def make_params(I, assemblage=("olivine",), fractions=None):
 
 
 def run_update(ctx, phase="olivine", fabric="olivine_A", regime="matrix_dislocation", N=2, nsteps=2, fail_at=None,
-               assemblage=("olivine",), stub_derivatives=True, get_regime=None, kwargs=None, phase_fractions=None):
+               assemblage=("olivine",), stub_derivatives=True, get_regime=None, kwargs=None, phase_fractions=None, nsnap=2):
     """Interpret one Mineral.update_orientations call. Returns a Run with everything recorded."""
     R = Run()
     R.N = N
@@ -95,7 +95,10 @@ def run_update(ctx, phase="olivine", fabric="olivine_A", regime="matrix_dislocat
     stubs = {}
     if stub_derivatives:
         stubs["pydrex.core.derivatives"] = Native("derivatives", derivatives_stub)
-    I = Interp(ctx.program, externals={"scipy.integrate.LSODA": Native("LSODA", lsoda)}, stubs=stubs)
+    def chooser(keys):
+        zeros = [i for i, k in enumerate(keys) if lift(k).is_zero()]
+        return tuple(zeros + [i for i in range(len(keys)) if i not in zeros])
+    I = Interp(ctx.program, externals={"scipy.integrate.LSODA": Native("LSODA", lsoda)}, stubs=stubs, perm_chooser=chooser)
     real_gbs = public(ctx, I, "pydrex.utils.apply_gbs")
 
     def gbs_wrapper(I_, *a, **kw):
@@ -104,10 +107,12 @@ def run_update(ctx, phase="olivine", fabric="olivine_A", regime="matrix_dislocat
     I.stubs["pydrex.utils.apply_gbs"] = Native("apply_gbs", gbs_wrapper)
 
     R.I = I
-    m = make_mineral(I, phase, fabric, regime, N)
+    m = make_mineral(I, phase, fabric, regime, N, nsnap=nsnap)
     R.mineral = m
-    R.A0 = m.attrs["orientations"][0]
-    R.f0 = m.attrs["fractions"][0]
+    R.nsnap = nsnap
+    R.A0 = m.attrs["orientations"][-1]
+    R.f0 = m.attrs["fractions"][-1]
+    R.older = [(a, a.copy()) for a in m.attrs["orientations"][:-1]] + [(a, a.copy()) for a in m.attrs["fractions"][:-1]]
     R.A0_saved = R.A0.copy()
     R.f0_saved = R.f0.copy()
     R.hist_ids = {id(m.attrs["orientations"]): "orientations", id(m.attrs["fractions"]): "fractions"}
